@@ -289,10 +289,12 @@ func yamlOfDefs(p definition.PipelineDef) string {
 func runAppxHistories() appxResult {
 	var res appxResult
 	defs := map[string]definition.PipelineDef{
-		"X": {Concurrency: 3, Tasks: map[string]definition.TaskDef{"xa": {Script: []string{"true"}}}},
+		"X": {Concurrency: 3, Tasks: map[string]definition.TaskDef{"xa": {Script: []string{"true", "echo x"}}}},
 		"Y": {Concurrency: 3, Tasks: map[string]definition.TaskDef{"ya": {Script: []string{"true"}}, "yb": {Script: []string{"true"}, DependsOn: []string{"ya"}}}},
 		// Z has the same size on disk as X (and the rewrites keep the mtime): X -> Z -> X are edits only the content shows
 		"Z": {Concurrency: 3, Tasks: map[string]definition.TaskDef{"za": {Script: []string{"true"}}}},
+		// W is X with the two script lines in the other order: same size, same task names, a different configuration
+		"W": {Concurrency: 3, Tasks: map[string]definition.TaskDef{"xa": {Script: []string{"echo x", "true"}}}},
 	}
 	tasksOf := func(n string) string {
 		var ns []string
@@ -302,7 +304,7 @@ func runAppxHistories() appxResult {
 		sort.Strings(ns)
 		return strings.Join(ns, ",")
 	}
-	names := []string{"X", "Y", "Z"}
+	names := []string{"X", "Y", "Z", "W"}
 	var hist [][]string
 	var gen func(cur []string)
 	gen = func(cur []string) {
